@@ -29,7 +29,8 @@ CONSTANTS NS,      \* subscriber slots 1..NS
           MaxH,    \* bound on the number of handlers added in a sequence
           Ticks,   \* BOOLEAN: resync-timer ticks are schedulable steps (exhaustive configs)
           Beh,     \* BOOLEAN: behaviour enumeration (history in the state, canonical forms)
-          Mut      \* "none" = the code as written; other values: seeded deviations (anti-vacuity)
+          Mut,     \* "none" = the code as written; other values: seeded deviations (anti-vacuity)
+          AddEv    \* BOOLEAN: also the composed operation "addev" (an object event arriving WHILE a handler is being added)
 
 Slots == 1..NS
 Res   == 1..NR
@@ -109,6 +110,7 @@ Init == /\ st = st0 /\ sres = sres0 /\ hinfo = <<>> /\ store = store0 /\ rvc = 0
 Canon(p) ==
   CASE p.t = "sub"  -> /\ (st[p.s] = "none" => \A s2 \in Slots : s2 < p.s => st[s2] # "none")
                        /\ (inf[p.r].gen = 0 => \A r2 \in Res : r2 < p.r => inf[r2].gen > 0)
+    [] p.t = "addev" -> (p.o \notin usedO[sres[p.s]] => \A o2 \in Objs : o2 < p.o => o2 \in usedO[sres[p.s]])
     [] p.t = "oadd" -> /\ (p.r = 1 \/ inf[p.r].gen > 0)
                        /\ (p.o \notin usedO[p.r] => \A o2 \in Objs : o2 < p.o => o2 \in usedO[p.r])
     [] OTHER -> TRUE
@@ -116,6 +118,8 @@ Canon(p) ==
 Pre(p) ==
   /\ CASE p.t = "sub"   -> p.s \in Slots /\ p.r \in Res /\ st[p.s] \in {"none", "closed"} /\ SlotHs(p.s) = {}
        [] p.t = "add"   -> p.s \in Slots /\ st[p.s] = "open" /\ Len(hinfo) < MaxH /\ p.h = Len(hinfo) + 1
+       [] p.t = "addev" -> /\ p.s \in Slots /\ st[p.s] = "open" /\ Len(hinfo) < MaxH /\ p.h = Len(hinfo) + 1
+                           /\ p.o \in Objs /\ p.rv > rvc
        [] p.t = "rem"   -> p.s \in Slots /\ (st[p.s] = "open" \/ (st[p.s] = "closed" /\ SlotHs(p.s) # {}))
        [] p.t = "close" -> p.s \in Slots /\ st[p.s] = "open"
        [] p.t = "oadd"  -> p.r \in Res /\ p.o \in Objs /\ store[p.r][p.o] = 0 /\ p.rv > rvc
@@ -179,6 +183,27 @@ DoAdd(p) ==
   /\ UNCHANGED <<st, sres, store, rvc, usedO, fRef, fShared, inf, sgen, lists>>
   /\ lop' = Lop(p, r, 0, FALSE, FALSE, lists[r], store[r])
 
+\* An object event reaches the shared handler WHILE addHandler runs (it arrives during the new handler's replay).
+\* addHandler holds the write lock of the shared handler from the registration to the end of the replay, so the
+\* notification waits and is then broadcast to every registered handler, the new one included: the composition
+\* "add ; event".  (A replay outside the lock, before the registration, would lose the event for the new handler.)
+DoAddEv(p) ==
+  LET s == p.s  r == sres[s]  h == p.h  o == p.o
+      c == IF sgen[s] = inf[r].gen THEN inf[r].cache ELSE Zero
+      e == IF store[r][o] = 0 THEN Ev("add", o, p.rv, 0) ELSE Ev("upd", o, p.rv, store[r][o])
+  IN
+  /\ hinfo' = Append(hinfo, [slot |-> s, r |-> r, own |-> p.own, removed |-> FALSE])
+  /\ reg' = [reg EXCEPT ![s] = Append(@, h)]
+  /\ timers' = IF p.own THEN timers \cup {h} ELSE timers
+  /\ store' = [store EXCEPT ![r][o] = p.rv]
+  /\ rvc' = p.rv
+  /\ usedO' = IF Beh THEN [usedO EXCEPT ![r] = @ \cup {o}] ELSE usedO
+  /\ inf' = IF inf[r].running THEN [inf EXCEPT ![r].cache[o] = p.rv] ELSE inf
+  /\ recv' = [i \in 1..h |-> IF i = h THEN (IF Mut # "noReplay" THEN CacheSeq(c) ELSE <<>>) \o <<e>>
+                             ELSE IF inf[r].running /\ i \in Fan(r) THEN <<e>> ELSE <<>>]
+  /\ UNCHANGED <<st, sres, fRef, fShared, sgen, lists>>
+  /\ lop' = Lop(p, r, store[r][o], FALSE, FALSE, lists[r], store[r])
+
 \* informerWrapper.RemoveEventHandlers -> sharedEventHandler.removeHandlers
 DoRem(p) ==
   LET s == p.s  r == sres[s]
@@ -224,13 +249,14 @@ DoFinal(p) == /\ recv' = Quiet /\ UNCHANGED <<ghost, code>>
 
 \* ---- what the PROPERTY expects after the step (declarative; printed with every Beh step)
 StepEvent == CASE lop.t = "oadd" -> <<Ev("add", lop.o, lop.rv, 0)>>
+               [] lop.t = "addev" -> IF lop.orv = 0 THEN <<Ev("add", lop.o, lop.rv, 0)>> ELSE <<Ev("upd", lop.o, lop.rv, lop.orv)>>
                [] lop.t = "oupd" -> <<Ev("upd", lop.o, lop.rv, lop.orv)>>
                [] lop.t = "odel" -> <<Ev("del", lop.o, lop.rv, 0)>>
                [] OTHER -> <<>>
 \* the real (non-replay) events an entitled handler must receive in this step, in order
-MustReal(h) == IF lop.t \in {"oadd", "oupd", "odel"} /\ hinfo[h].r = lop.r THEN StepEvent ELSE <<>>
+MustReal(h) == IF lop.t \in {"oadd", "oupd", "odel", "addev"} /\ hinfo[h].r = lop.r THEN StepEvent ELSE <<>>
 \* objects a handler added in this step must get replayed
-MustReplay(h) == IF lop.t = "add" /\ h = lop.h THEN { o \in Objs : lop.cached[o] > 0 } ELSE {}
+MustReplay(h) == IF lop.t \in {"add", "addev"} /\ h = lop.h THEN { o \in Objs : lop.cached[o] > 0 } ELSE {}
 ExpW == [r \in Res |-> IF Open(r) # {} THEN 1 ELSE 0]
 Expect ==
   [op    |-> [t |-> lop.t, s |-> lop.s, r |-> lop.r, o |-> lop.o, own |-> lop.own, h |-> lop.h],
@@ -247,6 +273,7 @@ Do(p) ==
   /\ \/ p.t = "sub"   /\ DoSub(p)
      \/ p.t = "close" /\ DoClose(p)
      \/ p.t = "add"   /\ DoAdd(p)
+     \/ p.t = "addev" /\ DoAddEv(p)
      \/ p.t = "rem"   /\ DoRem(p)
      \/ p.t \in {"oadd", "oupd", "odel"} /\ DoObj(p)
      \/ p.t = "tick"  /\ DoTick(p)
@@ -260,6 +287,7 @@ Ops ==
   \cup {Op(t, s, 0, 0, FALSE, 0, 0) : t \in {"rem", "close"}, s \in Slots}
   \cup {Op(t, 0, r, o, FALSE, 0, rvc + 1) : t \in {"oadd", "oupd", "odel"}, r \in Res, o \in Objs}
   \cup (IF Ticks THEN {Op("tick", 0, 0, 0, FALSE, h, 0) : h \in timers} ELSE {})
+  \cup (IF AddEv THEN {Op("addev", s, 0, o, own, Len(hinfo) + 1, rvc + 1) : s \in Slots, o \in Objs, own \in BOOLEAN} ELSE {})
 
 Next == n < MaxOps /\ \E p \in Ops : Do(p)
 Spec == Init /\ [][Next]_vars
@@ -296,14 +324,14 @@ P_Fresh(ob, lb) == (ob.has /\ lop.t = "sub" /\ lop.first) =>
 \* an OnAdd(o) would satisfy the statement as well)
 IsResync(e) == e.k = "upd" /\ e.orv = e.rv
 IsReplayOf(e, o, rv) == e.o = o /\ e.rv = rv /\ (e.k = "add" \/ IsResync(e))
-P_Replay(ob) == (ob.has /\ lop.t = "add") =>
+P_Replay(ob) == (ob.has /\ lop.t \in {"add", "addev"}) =>
   \A o \in MustReplay(lop.h) : \E i \in DOMAIN ob.recv[lop.h] : IsReplayOf(ob.recv[lop.h][i], o, lop.cached[o])
 \* every later event, exactly as the server produced it, in order; resync replays
 \* (OnUpdate(o,o) of a version the object had) may come in any number; a later event
 \* reaches it (miss)
 Real(seq, h) == SelectSeq(seq, LAMBDA e :
   /\ ~IsResync(e)
-  /\ ~(lop.t = "add" /\ h = lop.h /\ e.k = "add" /\ e.o \in Objs /\ lop.cached[e.o] = e.rv))
+  /\ ~(lop.t \in {"add", "addev"} /\ h = lop.h /\ e.k = "add" /\ e.o \in Objs /\ lop.cached[e.o] = e.rv))
 P_Complete(ob, Valid(_, _, _)) == ob.has => \A h \in Hs : Entitled(h) =>
   /\ h \notin ob.miss
   /\ Real(ob.recv[h], h) = MustReal(h)
